@@ -307,6 +307,30 @@ func runFrame(id string, toks []string) (res string) {
 			released = append(released, d...)
 		}
 		return "out=" + hx(released) + " st=clean"
+	case "intl":
+		// intl <shared> <m1> <m2>   the two directions of ONE session at the same time: Decrypt has consumed the 2-byte length
+		// of an incoming frame from a source that delivers the rest later (a socket); before the rest arrives the same
+		// session encrypts m2; then the rest arrives. Both directions must be unaffected by each other.
+		k := sharedKey(toks[1])
+		m1, m2 := unhex(toks[2]), unhex(toks[3])
+		s := newSess("srv", k)
+		w1 := refSealFrames(refKey(k[:], encLabel["cli"]), 0, m1)
+		var w2 []byte
+		hr := &hookReader{data: w1, first: 2, hook: func() {
+			if er, err := s.Encrypt(bytes.NewReader(m2)); err == nil {
+				w2, _ = ioutil.ReadAll(er)
+			}
+		}}
+		d := "err"
+		if dr, err := s.Decrypt(hr); err == nil {
+			b, _ := ioutil.ReadAll(dr)
+			d = hx(b)
+		}
+		e := "fail"
+		if pt, ok := refOpenAll(refKey(k[:], encLabel["srv"]), 0, w2); ok {
+			e = hx(pt)
+		}
+		return "d=" + d + " e=" + e
 	case "xdec":
 		// xdec <shared> <m1> <m2>   two sessions (two connections) receive at the same time: session 1 has decrypted a frame
 		// that its caller has read only one byte of when session 2 decrypts its frame; then both callers read on.
@@ -393,4 +417,39 @@ func runFrame(id string, toks []string) (res string) {
 		return "out=" + hx(released) + " st=clean"
 	}
 	return "badcase"
+}
+
+// hookReader delivers its first bytes on the first Read, calls hook, and delivers the rest afterwards
+type hookReader struct {
+	data  []byte
+	first int
+	hook  func()
+	calls int
+}
+
+func (h *hookReader) Read(p []byte) (int, error) {
+	h.calls++
+	if h.calls == 1 {
+		n := h.first
+		if n > len(h.data) {
+			n = len(h.data)
+		}
+		if n > len(p) {
+			n = len(p)
+		}
+		copy(p, h.data[:n])
+		h.data = h.data[n:]
+		return n, nil
+	}
+	if h.hook != nil {
+		f := h.hook
+		h.hook = nil
+		f()
+	}
+	if len(h.data) == 0 {
+		return 0, io.EOF
+	}
+	n := copy(p, h.data)
+	h.data = h.data[n:]
+	return n, nil
 }
